@@ -615,6 +615,26 @@ SameTargetV(S, pre, r, post) ==
             ELSE V("SameTarget", "assigns-another-target")
          : i \in DOMAIN pre}
 
+\* struct_fields_as_options / struct_fields_as_arguments: "the same target" at the level of leaves (DESIGN 3.5):
+\* every unfolded field of the struct is assigned at <the option's path>.<field>
+FieldTargetsV(S, pre, r, post) ==
+  UNION {LET b == pre[i]
+             sel == SelOpts(r, b)
+             un == Unsel(r, b)
+             wants == UNION {LET o == sel[x]
+                                 st == FirstArgStruct(S, o)
+                             IN IF st.k # "struct" THEN {}
+                                ELSE IF Last(o.assigns[1].path).type.k = "array" THEN {}      \* unfolded into an envelope appended to the list
+                                ELSE {PathIds(o.assigns[1].path) \o <<f.name>> : f \in Range(PickFields(st, r.fields))}
+                             : x \in DOMAIN sel}
+         IN IF sel = <<>> \/ wants = {} \/ Counterparts(b, post) = {} THEN {}
+            ELSE IF \E j \in Counterparts(b, post) :
+                      LET produced == {o \in Range(post[j].options) : Count(post[j].options, o) > Count(un, o)}
+                      IN wants \subseteq UNION {TargetsOf(o) : o \in produced}
+                 THEN {}
+            ELSE V("SameTarget", "field-of-the-struct-not-assigned")
+         : i \in DOMAIN pre}
+
 \* Parameterisations whose outcome nothing documents are outside every claim (DESIGN 6.0):
 \* an explicit field list that names no field of the struct it is applied to.
 Defined(S, pre, r) ==
@@ -637,6 +657,7 @@ StepViolated(S, pre, r, post) ==
   \cup (IF r.r = "rename" \/ (r.kind = "o" /\ r.r = "rename_arguments") THEN RenameV(S, pre, r, post) ELSE {})
   \cup (IF r.r = "duplicate" THEN DuplicateV(S, pre, r, post) ELSE {})
   \cup (IF r.kind = "o" /\ r.r \in SameTargetRules THEN SameTargetV(S, pre, r, post) ELSE {})
+  \cup (IF r.kind = "o" /\ r.r \in {"struct_fields_as_options", "struct_fields_as_arguments"} THEN FieldTargetsV(S, pre, r, post) ELSE {})
 (* ============ growth item 2: nil checks (GenerateBuilderNilChecks) ======== *)
 \* Requirement (DESIGN Appendix E.2; the IR half of C09): in every scope (the
 \* constructor, or one option) and for every assignment, every NULLABLE PROPER
